@@ -4,7 +4,7 @@
 (* combination of identifier, serde(rename), rename_all rule and attribute spelling. Each state     *)
 (* prints the JSON keys layer P requires for both fields.                                           *)
 EXTENDS SerdeAttrs, TLC, Json
-CONSTANTS Idents, Renames, RuleSet, Spellings, EnumRules, EnumFieldRules, Layouts, Decors
+CONSTANTS Idents, Renames, RuleSet, Spellings, EnumRules, EnumFieldRules, Layouts, Decors, Siblings
 VARIABLES c
 
 \* identifiers as character sequences; raw = written r#ident in Rust
@@ -37,7 +37,7 @@ RenameOf(n) == CASE n = "none" -> None
                  [] n = "$ref" -> <<"$","r","e","f">>            \* JSON-Schema / MongoDB style keys: `$` means something in Kotlin strings, nothing in Go tags
 
 Init == c \in [kind : {"struct", "variant"}, ident : Idents, rename : Renames, rule : RuleSet,
-               enum_rule : EnumRules, spelling : Spellings, enum_fields_rule : EnumFieldRules, layout : Layouts, decor : Decors]
+               enum_rule : EnumRules, spelling : Spellings, enum_fields_rule : EnumFieldRules, layout : Layouts, decor : Decors, sibling : Siblings]
 Next == UNCHANGED c
 
 RECURSIVE Str(_)
@@ -70,7 +70,16 @@ KeyOfMember(m) == IF m = "S" THEN Str(FieldWire(IdentOf(c.ident).s, RenameOf(c.r
 \* override) - never which JSON key it is bound to
 DecorScope == c.decor # "none" => (c.layout = "two" /\ c.spelling = "merged" /\ c.enum_rule = "none" /\ c.enum_fields_rule = "none")
 LayoutScope == c.layout # "two" => (c.spelling = "merged" /\ c.enum_rule = "none" /\ c.enum_fields_rule = "none")
-Emit == ((c.kind = "struct" => c.enum_rule = "none") /\ FieldsRuleScope /\ LayoutScope /\ DecorScope /\ ~DeferredToC16) =>
+\* sibling: a SECOND struct variant (Dec { dec_word }) of the same enum, declared before or after the variant under test. serde resolves
+\* the rule of each variant on its own (the variant's rename_all, else the enum's rename_all_fields): a rule written on one variant
+\* reaches neither the variants declared after it nor those before it. ruled_*: the sibling carries a rule of its own (another one
+\* than the variant under test); plain_after: it carries none and follows a variant that does
+SiblingRule == IF c.sibling = "plain_after" THEN "none" ELSE IF c.rule = "SCREAMING_SNAKE_CASE" THEN "camelCase" ELSE "SCREAMING_SNAKE_CASE"
+SiblingContainer == [kind |-> "variant", rename_all |-> SiblingRule, variant_rename_all |-> SiblingRule, enum_rename_all_fields |-> c.enum_fields_rule]
+SiblingKey == Str(FieldWire(<<"d","e","c","_","w","o","r","d">>, None, RuleForField(SiblingContainer)))
+SiblingScope == c.sibling # "none" => (c.kind = "variant" /\ c.layout = "two" /\ c.spelling = "merged" /\ c.enum_rule = "none" /\ c.decor = "none" /\ c.rename = "none")
+Emit == ((c.kind = "struct" => c.enum_rule = "none") /\ FieldsRuleScope /\ LayoutScope /\ DecorScope /\ SiblingScope /\ ~DeferredToC16) =>
     PrintT(<<"REPLAY", ToJson([case |-> c, configs |-> Configs, members |-> LayoutOf(c.layout),
-        keys |-> [k \in 1..Len(LayoutOf(c.layout)) |-> KeyOfMember(LayoutOf(c.layout)[k])]])>>)
+        keys |-> [k \in 1..Len(LayoutOf(c.layout)) |-> KeyOfMember(LayoutOf(c.layout)[k])],
+        sibling_rule |-> SiblingRule, sibling_key |-> SiblingKey])>>)
 =============================================================================
